@@ -348,23 +348,27 @@ class HasObservables:
         else:
             names = self.observables.keys()
 
-        for name in names:
-            if not isinstance(signal_type, All):
+        # validate every requested (name, signal_type) before subscribing to any of
+        # them, so that a rejected call leaves the subscriptions untouched
+        if not isinstance(signal_type, All):
+            for name in names:
                 if signal_type not in self.observables[name]:
                     raise ValueError(
                         f"you are trying to subscribe to a signal of {signal_type} "
                         f"on Observable {name}, which does not emit this signal_type"
                     )
-                else:
-                    signal_types = [
-                        signal_type,
-                    ]
-            else:
+
+        for name in names:
+            if isinstance(signal_type, All):
                 signal_types = self.observables[name]
+            else:
+                signal_types = [
+                    signal_type,
+                ]
 
             ref = create_weakref(handler)
-            for signal_type in signal_types:
-                self.subscribers[name][signal_type].append(ref)
+            for st in signal_types:
+                self.subscribers[name][st].append(ref)
 
     def unobserve(self, name: str | All, signal_type: str | All, handler: Callable):
         """Unsubscribe to the Observable <name> for signal_type.
